@@ -154,8 +154,9 @@ func (g *gen) mutation() (Op, bool) {
 			}
 		case 17, 18:
 			op.Kind = "rmrole"
+			// one in ten names a built-in role: the unprivileged writer refuses that
+			// deletion, and the role must keep granting afterwards
 			g.roleRef(&op, true)
-			op.B = ""
 		default:
 			op.Kind = "rmpol"
 			op.P = g.polRef(true)
